@@ -1,6 +1,8 @@
 package main
 
 import (
+	"strings"
+	"runtime"
 	"bufio"
 	"bytes"
 	"encoding/json"
@@ -52,9 +54,12 @@ type StoreH struct {
 type RefTracker struct {
 	mu       sync.Mutex
 	counts   map[*gkvlite.Item]int
+	log      map[*gkvlite.Item][]string
 	negative int
 	handBad  int
 }
+
+var refLogOn = os.Getenv("VERIF_REFLOG") != ""
 
 func (r *RefTracker) add(i *gkvlite.Item, d int) {
 	if i == nil {
@@ -62,6 +67,26 @@ func (r *RefTracker) add(i *gkvlite.Item, d int) {
 	}
 	r.mu.Lock()
 	r.counts[i] += d
+	if refLogOn {
+		// diagnostic (VERIF_REFLOG=1): who took / released the reference
+		pcs := make([]uintptr, 14)
+		n := runtime.Callers(2, pcs)
+		fr := runtime.CallersFrames(pcs[:n])
+		st := fmt.Sprintf("%+d:", d)
+		for {
+			f, more := fr.Next()
+			if strings.Contains(f.Function, "gkvlite.") || strings.Contains(f.Function, "main.(*World)") {
+				st += " " + f.Function[strings.LastIndex(f.Function, ".")+1:] + fmt.Sprintf(":%d", f.Line)
+			}
+			if !more {
+				break
+			}
+		}
+		if r.log == nil {
+			r.log = map[*gkvlite.Item][]string{}
+		}
+		r.log[i] = append(r.log[i], st)
+	}
 	if r.counts[i] < 0 {
 		r.negative++
 	}
@@ -836,6 +861,18 @@ func (w *World) Refs() {
 	w.refs.mu.Lock()
 	neg, hb := w.refs.negative, w.refs.handBad
 	w.refs.mu.Unlock()
+	if refLogOn && len(w.stores) == 0 {
+		w.refs.mu.Lock()
+		for it, c := range w.refs.counts {
+			if c != 0 {
+				fmt.Fprintf(os.Stderr, "LEAK key=%q vallen=%d count=%d\n", it.Key, len(it.Val), c)
+				for _, l := range w.refs.log[it] {
+					fmt.Fprintln(os.Stderr, "   ", l)
+				}
+			}
+		}
+		w.refs.mu.Unlock()
+	}
 	w.emit(Ev{"e": "Refs", "negative": neg, "handedout_nonpositive": hb,
 		"reachable_nonpositive": reachBad, "outstanding": w.refs.outstanding()})
 }
